@@ -327,8 +327,8 @@ func (p *Prog) idCompare(c *Ctx, rule string, fname string, isPeer func(info *ty
 func ruleIDMux(c *Ctx) {
 	p := c.P
 	p.ruleIDs(c, "R-ID/mux", []idSpec{
-		{"MuxBroker.Dial", 1}, {"MuxBroker.Accept", 3}, {"MuxBroker.Run", 2}, {"MuxBroker.getStream", 3}, {"MuxBroker.timeoutWait", 1},
-		{"MuxBroker.AcceptAndServe", 1}, {"dispenseServer.Dispense", 2}, {"RPCClient.Dispense", 1},
+		{"MuxBroker.Dial", 1}, {"MuxBroker.Accept", 1}, {"MuxBroker.Run", 1}, {"MuxBroker.getStream", 1}, {"MuxBroker.timeoutWait", 1},
+		{"MuxBroker.AcceptAndServe", 1}, {"dispenseServer.Dispense", 1}, {"RPCClient.Dispense", 1},
 	})
 	// Dial: the echoed ack must equal the id
 	p.idCompare(c, "R-ID/mux", "MuxBroker.Dial", func(info *types.Info, e ast.Expr) bool {
@@ -395,8 +395,8 @@ func ruleIDMux(c *Ctx) {
 func ruleIDGRPC(c *Ctx) {
 	p := c.P
 	p.ruleIDs(c, "R-ID/grpc", []idSpec{
-		{"GRPCBroker.Accept", 2}, {"GRPCBroker.Run", 3}, {"GRPCBroker.DialWithOptions", 1}, {"GRPCBroker.getClientStream", 3},
-		{"GRPCBroker.getServerStream", 3}, {"GRPCBroker.timeoutWait", 1}, {"GRPCBroker.AcceptAndServe", 1},
+		{"GRPCBroker.Accept", 1}, {"GRPCBroker.Run", 1}, {"GRPCBroker.DialWithOptions", 1}, {"GRPCBroker.getClientStream", 1},
+		{"GRPCBroker.getServerStream", 1}, {"GRPCBroker.timeoutWait", 1}, {"GRPCBroker.AcceptAndServe", 1},
 	})
 	// Accept advertises the address of the listener it just opened
 	if f := p.Fn("GRPCBroker.Accept"); f != nil {
@@ -512,7 +512,7 @@ func ruleIDGRPC(c *Ctx) {
 func ruleIDKnock(c *Ctx) {
 	p := c.P
 	p.ruleIDs(c, "R-ID/knock", []idSpec{
-		{"GRPCBroker.knock", 2}, {"GRPCBroker.listenForKnocks", 3}, {"GRPCBroker.muxDial", 1},
+		{"GRPCBroker.knock", 1}, {"GRPCBroker.listenForKnocks", 1}, {"GRPCBroker.muxDial", 1},
 		{"grpcmux.GRPCServerMuxer.Listener", 1}, {"grpcmux.GRPCServerMuxer.AcceptKnock", 1}, {"grpcmux.GRPCServerMuxer.Accept", 1},
 		{"grpcmux.GRPCClientMuxer.Listener", 1}, {"grpcmux.GRPCClientMuxer.AcceptKnock", 1},
 	})
@@ -549,10 +549,10 @@ func ruleIDKnock(c *Ctx) {
 func ruleSlot(c *Ctx) {
 	p := c.P
 	want := map[string]string{
-		"muxBrokerPending.ch":                   "target of the non-blocking park in MuxBroker.Run",
-		"gRPCBrokerPending.ch":                  "target of the non-blocking park in GRPCBroker.Run",
-		"grpcmux.GRPCServerMuxer.knockCh":       "AcceptKnock must be able to leave its token before the muxer's Accept loop reads it",
-		"grpcmux.blockedClientListener.waitCh":  "unblock() is called with acceptMutex held and must not wait for the listener's Accept",
+		"muxBrokerPending.ch":                  "target of the non-blocking park in MuxBroker.Run",
+		"gRPCBrokerPending.ch":                 "target of the non-blocking park in GRPCBroker.Run",
+		"grpcmux.GRPCServerMuxer.knockCh":      "AcceptKnock must be able to leave its token before the muxer's Accept loop reads it",
+		"grpcmux.blockedClientListener.waitCh": "unblock() is called with acceptMutex held and must not wait for the listener's Accept",
 	}
 	found := map[string]int{}
 	for _, f := range p.Funcs {
